@@ -13,7 +13,8 @@ LEDGER_NOTE = ("Trusted: TLC, JSON bridge, the harness's read-only projection th
                "Amounts < 2^31. Scenarios: staking methods, node registration / unfreeze / hand-over / key theft, runtime registration "
                "and governance-model transitions, compute-role node updates, entity deregistration, governance proposals and votes, "
                "executor commitments, runtime equivocation evidence, incoming runtime messages, entity descriptors, vault methods, VRF "
-               "proofs, structurally mutated bodies under authentic signatures; insecure and VRF beacon backends. Key-manager methods, "
+               "proofs (also stale ones), structurally mutated bodies under authentic signatures, upgrade and cancel-upgrade proposals, nodes "
+               "without the validator role, consensus feature version 26.1 on for even seeds; insecure and VRF beacon backends. Key-manager methods, "
                "ProveFreshness, messages emitted by runtimes and TEE runtimes are not generated.")
 
 CHECKS = {
@@ -157,7 +158,8 @@ CHECKS = {
         "same-version chains, pruning lag; a line of versions over three keys); every emitted history is executed on both real "
         "backends, on trees re-opened from the database and on long-lived tree objects, and every retained finalized "
         "root, pending candidate and still-claimed discarded candidate is read back completely after every operation and at every "
-        "intermediate durable state inside Commit/Finalize/Prune.",
+        "intermediate durable state inside Commit/Finalize/Prune; sampled histories that prune also run on disk with Restart and "
+        "Compact as stuttering steps (six foreign restarts, compaction, read-back) after the first prune and at the end.",
         "Trusted: TLC, JSON bridge, hook H1 placement. Well-formed API use only; declined operations are observations. Three open "
         "known findings, all on the legacy badger backend, are matched by backend + sharing/chain diagnostics; anything on "
         "pathbadger or outside those shapes alarms.",
@@ -177,7 +179,8 @@ CHECKS = {
         "Exhaustive TLC check of the log algebra; every distinct (initial contents, batch, last op) case with every single "
         "corruption of its log, and every batch HISTORY over a two-key universe (remove / re-insert / remove inside one batch), is "
         "executed against the real databases: the served log must reproduce r2, and Apply must persist exactly when TLC says the "
-        "corrupted log still yields the announced contents, leaving no root visible otherwise.",
+        "corrupted log still yields the announced contents, leaving no root visible otherwise; every fourth case also builds two "
+        "pending candidates of one version that converge on one root of the next and judges every log served for the four pairs.",
         "Trusted: TLC, JSON bridge, C02 (contents equality = root equality). A GetWriteLog error for two different consecutive "
         "roots is judged: one open known finding (pathbadger refuses pairs whose batch rewrites a key with its old value), "
         "anything else alarms; r1 = r2 refusals are OBSERVATION lines. "
@@ -189,7 +192,8 @@ CHECKS = {
         "recomputed over the spec's shape; (contents, root) bijection validated by TLC (TraceRoots.tla)",
         "Exhaustive TLC check that the bit-level transcription of doInsert/doRemove is canonical for every history over an "
         "adversarial key universe; every distinct (operation, model state) pair plus random deep histories replayed on real trees "
-        "with commits/reopens, the real root compared after every operation; all recorded (contents, root) pairs must form a bijection.",
+        "with commits/reopens, the real root compared after every operation; tight-cache runs alternate with read-before-write runs "
+        "that end in a churn suffix (read / remove / commit / re-insert / commit rounds); all recorded (contents, root) pairs must form a bijection.",
         "Trusted: TLC, JSON bridge, SHA-512/256 collision resistance. Keys <= 3 bytes, values <= 2 bytes. Value-cache limits are "
         "exercised under C03.",
         "DESIGN.md 4 C02"),
